@@ -10,7 +10,7 @@ are discharged by `decide` (8 s):
   * disagreeing_kinds — exactly one kind disagrees: openapi2.Schema
   * stray_deletes     — its unmarshaller deletes "anyOf", "nullable", "oneOf" without having such
                         fields (finding #27, confirmed on the real code)
-  * the_rest_agrees   — the other 31 kinds agree
+  * the_rest_agrees   — the other 30 kinds agree
 -/
 -- GENERATED from /repo by the scratch descriptor extractor (design-time run)
 namespace Gen
@@ -70,8 +70,8 @@ theorem stray_deletes :
     ((descriptors.filter (fun d => d.name == "openapi2.Schema")).map
       (fun d => d.dels.filter (fun k => !d.marsh.contains k))) = [["anyOf", "nullable", "oneOf"]] := by decide
 
-/-- everything else agrees: 31 kinds -/
+/-- everything else agrees: 30 kinds -/
 theorem the_rest_agrees : ∀ d ∈ descriptors.filter (fun d => d.name != "openapi2.Schema"), d.agree = true := by decide
-theorem table_size : descriptors.length = 32 := by decide
+theorem table_size : descriptors.length = 31 := by decide
 
 end Gen
